@@ -288,6 +288,10 @@ func c12(e *Env) {
 				untouched++
 				continue
 			}
+			if req.Raw[1]&^0x01 != a.Raw[1]&^0x01 {
+				w.Violate("c12-override", "override-changed-header-flags("+req.Kind+")", fmt.Sprintf("%s: header flags 0x%02x became 0x%02x (only COMPRESSED may differ)", what, req.Raw[1], a.Raw[1]))
+				return
+			}
 			want, err1 := canon(req.Client.Compression, req.Raw, &override)
 			got, err2 := canon(a.Compression, a.Raw, nil)
 			if err1 != nil || err2 != nil {
